@@ -1687,11 +1687,11 @@ class Logger:
         level = Level(name, no, color, icon)
 
         with self._core.lock:
-            self._core.levels[name] = level
             self._core.levels_ansi_codes[name] = ansi
-            self._core.levels_lookup[name] = (name, name, no, icon)
             for handler in self._core.handlers.values():
                 handler.update_format(name)
+            self._core.levels[name] = level
+            self._core.levels_lookup[name] = (name, name, no, icon)
 
         return level
 
